@@ -50,7 +50,8 @@ func (c *Ctx) writeOf(in ssa.Instruction) (pktT string, id ssa.Value, ok bool) {
 	if pt == "pack" {
 		return "pack", nil, true
 	}
-	return pt, c.packetField(pcall.Call.Args[0], "ID"), true
+	// (a packet that reaches Pack through a join is the one of the incoming edges that can reach this call)
+	return pt, c.packetField(c.ResolveAt(pcall.Call.Args[0], pcall), "ID"), true
 }
 
 // srvEff is one hand-over of a message to the registered handler: a direct Handler.Serve invoke, or a call of a helper
@@ -399,17 +400,30 @@ func checkC04(r *Run) {
 					}
 				}
 			}
+			// the test of the hit flag (if it is tested more than once, the test all the others lie below)
 			var hitEdge *ifEdge
+			var hitTests []*ssa.BasicBlock
 			for _, b := range f.Blocks {
 				if iff := blockIf(b); iff != nil && iff.Cond == hit {
+					hitTests = append(hitTests, b)
+					hitEdge = &ifEdge{b, 0}
+				}
+			}
+			for _, b := range hitTests {
+				all := true
+				for _, o := range hitTests {
+					if o != b && !b.Dominates(o) {
+						all = false
+					}
+				}
+				if all {
 					hitEdge = &ifEdge{b, 0}
 				}
 			}
 			if hitEdge == nil {
 				bad(look.Pos(), "the result of the hold-buffer look-up is not tested")
 			} else {
-				hitStart := hitEdge.B.Succs[0]
-				region := ReachableFromBlock(f, hitStart, pq)
+				region := ReachableViaEdge(f, *hitEdge, pq)
 				var serves []*srvEff
 				var writes []ssa.Instruction
 				var dels []ssa.Instruction
@@ -426,12 +440,9 @@ func checkC04(r *Run) {
 						}
 					}
 				}
-				first := hitStart.Instrs[0]
+				// a path from the function's entry that takes the hit edge and then reaches the next read
 				pathAvoiding := func(avoid func(ssa.Instruction) bool, exempt func(*ssa.BasicBlock, int) bool) bool {
-					if avoid(first) {
-						return false
-					}
-					_, ok := CanReach(f, first, stopAtRead, PathQ{BlockInstr: avoid, BlockEdge: exempt})
+					_, ok := CanReach(f, nil, stopAtRead, PathQ{BlockInstr: avoid, BlockEdge: exempt, MustEdge: hitEdge})
 					return ok
 				}
 				if len(serves) != 1 {
@@ -485,7 +496,7 @@ func checkC04(r *Run) {
 					}
 				}
 				// miss edge: no hand-over
-				miss := ReachableFromBlock(f, hitEdge.B.Succs[1], pq)
+				miss := ReachableViaEdge(f, ifEdge{hitEdge.B, 1}, pq)
 				for in := range miss {
 					if k, ok := c.serveEff(in); ok {
 						bad(k.Call.Pos(), "a PUBREL with an unknown identifier causes a hand-over")
